@@ -96,6 +96,7 @@ def no_arm_cause(arms, v):
     """structural class of an accepted arm list none of whose arms matches v:
     - has-cover:<shape>   some arm is a plain class that contains the value (such an arm must match: always a new, narrow key)
     - float-arm           the only class that contains the (integer) value is Float (Nat <: Int <: Float for the checker)
+    - bool-class-arm      a Bool-annotated arm for the integer value 0 / 1 ({0, 1} <: Bool for the checker)
     - refinement+unrelated-class   refinement arms over the value's class that do not contain it, next to a class that cannot contain it
     - other:<shape>"""
     vc = value_class(v)
@@ -109,6 +110,8 @@ def no_arm_cause(arms, v):
     unrelated = {c for c in comps if ":" not in c and c not in INSTANCE_OF[vc]}
     if refin and unrelated:
         return "refinement+unrelated-class"
+    if vc == "nat" and "Bool" in comps:
+        return "bool-class-arm"   # {0, 1} <: Bool for the checker (True == 1)
     return "other:" + union_shape(arms)
 
 
